@@ -3,7 +3,7 @@
    (GroupLaws); vector length 2^k for EVERY k (the code fixes k = 8). *)
 From Coq Require Import ZArith List Arith.
 From GoIpa Require Import Model.Zq Model.FpSqrt Model.Concrete Model.Bytes Model.Alg Model.Transcript Model.Bary Model.Banderwagon Model.IPA
-  Proofs.AlgLaws Proofs.IPAProofs Proofs.BaryProofs Proofs.BaryPoly.
+  Proofs.AlgLaws Proofs.IPAProofs Proofs.BaryProofs Proofs.BaryPoly Proofs.Transfer.
 Import ListNotations.
 
 Section C04.
@@ -102,3 +102,24 @@ Definition toy_run (z : Z) : option bool :=
   end.
 Example C04_example_toy_runs : toy_run 2 = Some true /\ toy_run 3 = Some true /\ toy_run 57 = Some true.
 Proof. vm_compute. repeat split. Qed.
+
+(* the prover run on representations (go1) and over any group go2 related to them produce the
+   same transcript, the same final scalar and related L/R points - or fail together *)
+Theorem C04_prover_transfer :
+  forall (F G1 G2 : Type) (fo : FOps F) (go1 : GOps F G1) (go2 : GOps F G2) (hashf : list Z -> list Z)
+         (rel : G1 -> G2 -> Prop),
+  rel (g0 go1) (g0 go2) ->
+  (forall a a' b b', rel a a' -> rel b b' -> rel (gadd go1 a b) (gadd go2 a' b')) ->
+  (forall s p p', rel p p' -> rel (gmul go1 s p) (gmul go2 s p')) ->
+  (forall a a', rel a a' -> genc go1 a = genc go2 a') ->
+  forall t c1 c2 cm cm' a z, cfg_rel rel c1 c2 -> rel cm cm' ->
+    match ipa_create fo go1 hashf t c1 cm a z, ipa_create fo go2 hashf t c2 cm' a z with
+    | Some (t1, p1), Some (t2, p2) => t1 = t2 /\ ipa_rel rel p1 p2
+    | None, None => True
+    | _, _ => False
+    end.
+Proof.
+  intros F G1 G2 fo go1 go2 hashf rel H0 Ha Hm He.
+  exact (ipa_create_rel fo go1 go2 hashf rel H0 Ha Hm He).
+Qed.
+Print Assumptions C04_prover_transfer.
